@@ -266,30 +266,31 @@ func (sh *Shared) buildIntrinsics() {
 	m["(time.Time).Format"] = func(fr *frame, args []value) value { return "<time>" }
 	m["(time.Duration).String"] = func(fr *frame, args []value) value { return "<duration>" }
 	m["(time.Duration).Seconds"] = func(fr *frame, args []value) value {
-		// exact for concrete durations; symbolic: arbitrary finite float, monotone per term identity
+		// exact for concrete durations; a symbolic duration must be k*time.Second with
+		// |k| <= 2^33 provable from the path condition: then Seconds() == float64(k) exactly
+		// (sec = k, nsec = 0 in the real implementation). Anything else fails closed.
 		if d, ok := args[0].(int64); ok {
 			return float64(d) / 1e9
 		}
 		p := fr.i.path
 		d := args[0].(sym)
-		key := d.t.ID
-		if f, ok := p.secCache[key]; ok {
-			return f
+		var k *smt.Term
+		if d.t.Op == "bvmul" && len(d.t.Args) == 2 {
+			for ai, a := range d.t.Args {
+				if a.IsLit && a.LitU == 1_000_000_000 {
+					k = d.t.Args[1-ai]
+				}
+			}
 		}
-		t := p.fresh("seconds", smt.F64)
-		// contract: sign agrees, finite, |value| <= 2^63/1e9, zero iff d == 0
-		zero := smt.F64Lit(0)
-		neg := smt.App("bvslt", smt.Bool, d.t, smt.BVLit(0, 64))
-		isz := smt.Eq(d.t, smt.BVLit(0, 64))
-		p.addPC(smt.Not(smt.App("fp.isNaN", smt.Bool, t)))
-		p.addPC(smt.Not(smt.App("fp.isInfinite", smt.Bool, t)))
-		p.addPC(smt.App("fp.leq", smt.Bool, t, smt.F64Lit(9223372036.854775807)))
-		p.addPC(smt.App("fp.geq", smt.Bool, t, smt.F64Lit(-9223372036.854775808)))
-		p.addPC(smt.Ite(isz, smt.App("fp.eq", smt.Bool, t, zero),
-			smt.Ite(neg, smt.App("fp.lt", smt.Bool, t, zero), smt.App("fp.gt", smt.Bool, t, zero))))
-		r := sym{types.Float64, t}
-		p.secCache[key] = r
-		return r
+		if k == nil {
+			panic(engineError{"(time.Duration).Seconds on a symbolic duration that is not k*time.Second at " + fr.pos()})
+		}
+		lim := uint64(1) << 33
+		inRange := smt.And(smt.App("bvsle", smt.Bool, smt.BVLit(-lim, 64), k), smt.App("bvsle", smt.Bool, k, smt.BVLit(lim, 64)))
+		if p.check(smt.Not(inRange)) != smt.Unsat {
+			panic(engineError{"(time.Duration).Seconds: whole-second count not provably within 2^33 at " + fr.pos()})
+		}
+		return mkSym(types.Float64, smt.App("(_ to_fp 11 53)", smt.F64, rm(rne), k))
 	}
 	// ---- fmt / errors ----
 	m["fmt.Errorf"] = func(fr *frame, args []value) value { return fr.fmtErrorf(args) }
